@@ -34,7 +34,10 @@ def run(ctx):
     t, grid = rl.tables(ctx)
     classes = ["cbc10", "tls12", "tls13"]
     res, scns = rl.mc(ctx, "Record_MC_c25", classes=classes, sizes=SIZES, reads=READS,
-                      maxops=3 if ctx.quick else 4, maxw=3, maxku=2, maxmut=1, maxclose=1, workers=8, timeout=1700)
+                      maxops=3 if ctx.quick else 4, maxw=3, maxku=2, maxmut=1, maxclose=1,
+                      # one worker: with a VIEW the path that represents a state depends on the exploration order,
+                      # so only a single-worker BFS makes the emitted scenarios (and the run) a function of the seed
+                      workers=1 if ctx.quick else 8, timeout=1700)
     deep = []
     if not ctx.quick:
         # random deep paths beyond the exhaustive bound
@@ -76,9 +79,10 @@ def run(ctx):
         ctx.finding(sig, "version 0x%04x suite 0x%04x weak=%s: %s" % (j["vers"], j["suite"], j["weak"], why),
                     dict(rl.first_bad_event(out["by"][sc], why), scenario=j["ops"], dyn=j["dyn"]))
     # ---- vacuity
-    rl.need(out["stats"], ["Init.hs", "Write", "Write.multi", "Write.split", "Write.zero", "Read.data", "Read.partial", "Read.zero",
-                           "Read.timeout", "Read.eof", "Read.error", "Read.alert", "Read.sticky", "Read.kuresp", "KeyUpdate", "Close",
-                           "Mutate", "Nonce"], "C25")
+    if not out["rej"]:    # (with reproduced rejections the verdict stands on those)
+        rl.need(out["stats"], ["Init.hs", "Write", "Write.multi", "Write.split", "Write.zero", "Read.data", "Read.partial", "Read.zero",
+                               "Read.timeout", "Read.eof", "Read.error", "Read.alert", "Read.sticky", "Read.kuresp", "KeyUpdate", "Close",
+                               "Mutate", "Nonce"], "C25")
     muts = {}
     for evs in out["by"].values():
         for e in evs:
